@@ -3,7 +3,7 @@ from .C01 import ROUTER_TB, CFG as C01
 
 CFG = dict(C01)
 CFG.update({
-    "harness": ["router:conflicts", "router", "router:small", "register"],
+    "harness": ["router:conflicts", "router", "router:small", "router:large", "register"],
     "coq_header": "From DS Require Import Base Versions Router RouterSpec Register.\nFrom DSR Require Import Run_Router.",
     "judge": "judge_c02",
     "rule": "histories of 1-6 registrations drawn to collide (same prefix with kind and name clashes, repeated names, "
